@@ -16,7 +16,7 @@ if [ $ok = 0 ]; then echo "SEED-NOT-CONFIRMED $label"; exit 3; fi
 ov=$(demo/seed_overlay.sh "$label" "$d/patch.diff") || { echo "overlay failed"; exit 3; }
 results="{}"
 for chk in $prop "$@"; do
-  log=$(VERIF_OVERLAY=$ov ./run.sh $chk quick 2>&1); rc=$?
+  log=$(VERIF_EVIDENCE_DIR=/verif/.build/scratch-evidence VERIF_REPLAY_DIR=/verif/.build/scratch-replays VERIF_OVERLAY=$ov ./run.sh $chk quick 2>&1); rc=$?
   sigs=$(echo "$log" | grep -A1 '^VIOLATION' | grep signature | sed 's/.*signature: //' | sort -u | tr '\n' ' ')
   summary=$(echo "$log" | grep -E "^$chk quick:" | sed -E 's/.*(violations=[0-9]+).*/\1/')
   echo "  check $chk: exit=$rc $summary sigs: $sigs"
